@@ -240,6 +240,18 @@ class RunReactorTask(Task):
                  "abort" not in names and "release" not in names, detail=f"{names}")
         I.ob(f"C09/{RUN}/the-network-timeout-is-decided-by-the-provider's-idle-timer-asked-at-most-once-per-iteration",
              g.get("idle_asks", 0) <= 1)
+        # ---- C27: terminal outcomes.  An iteration notifies at most one of EVT_RELEASED / EVT_ABORTED itself, with the matching
+        # flag already set, kills the association after it and ends the reactor - so the reactor notifies at most one in its life
+        term = [i for i, e in enumerate(tr) if e.name == "evt" and e.args[0] in ("EVT_RELEASED", "EVT_ABORTED")]
+        ok27 = len(term) <= 1
+        if len(term) == 1:
+            flag = {"EVT_RELEASED": "is_released", "EVT_ABORTED": "is_aborted"}[tr[term[0]].args[0]]
+            before = [e.args for e in tr[:term[0]] if e.name == "set"]
+            ok27 = how == "returned" and (flag, True) in before and ("is_established", False) in before and "kill" in names[term[0]:]
+        I.ob(f"C27/{RUN}/an-iteration-notifies-at-most-one-terminal-outcome-with-its-flag-set-then-kills-and-ends-the-reactor", ok27,
+             detail=f"{how}: {names}")
+        if how == "continues":
+            I.ob(f"C27/{RUN}/an-iteration-that-continues-has-notified-no-terminal-outcome", not term, detail=f"{names}")
         if how == "continues":
             I.ob(f"C08/{RUN}/an-iteration-that-continues-blocked-on-nothing-but-the-bounded-waits",
                  all(e.name not in ("blocking",) for e in tr))
